@@ -147,3 +147,93 @@ def _path_is_allowed(fn_node, call, allow_substrings):
             if last is None or n.lineno > last.lineno:
                 last = n
     return last is not None and any(a in ast.unparse(last.value) for a in allow_substrings)
+
+
+MUTATORS = ('append', 'extend', 'insert', 'pop', 'remove', 'clear', 'update', 'sort', 'reverse', 'popitem', 'setdefault',
+            'add', 'discard', 'set', 'remove_option', 'subtract', 'write', 'writelines', 'seek', 'truncate')
+
+
+def readonly_frame(repo, specs, may_call=(), tag='readonly'):
+    """Frame obligation "this function only reads": one record per (relpath, qualname) in specs.  The function may not update in place
+    anything reachable from its parameters (self included): no item/attribute/slice store, augmented store or delete whose root is a
+    parameter or a local name bound to (part of) one, no mutator method call or heapq operation on such a root, and every method it calls
+    on a parameter is itself in `specs`/`may_call` (so the obligation is closed under calls).  Syntactic, hence over all paths."""
+    by_file = {}
+    names = {q.rsplit('.', 1)[-1] for _, q in specs} | set(may_call)
+    records = []
+    for rel, qn in specs:
+        path = os.path.join(repo, rel)
+        key = '%s:%s' % (rel, qn)
+        name = '%s.frame.%s.%s' % (tag, rel.replace('/', '.').replace('.py', ''), qn)
+        if rel not in by_file:
+            by_file[rel] = dict(functions_of(path)) if os.path.exists(path) else {}
+        node = by_file[rel].get(qn)
+        if node is None:
+            records.append({'name': name, 'ok': False, 'detail': 'function not found', 'fn': key, 'site': key})
+            continue
+        params = {a.arg for a in node.args.args}
+        tainted = set(params)
+
+        def root_of(t):
+            cur, steps = t, 0
+            while isinstance(cur, (ast.Subscript, ast.Attribute, ast.Starred)):
+                cur = cur.value
+                steps += 1
+            return (cur.id, steps) if isinstance(cur, ast.Name) else (None, 0)
+
+        body_nodes = []
+        stack = list(node.body)
+        while stack:
+            n = stack.pop()
+            if isinstance(n, (ast.FunctionDef, ast.AsyncFunctionDef, ast.Lambda, ast.ClassDef)):
+                continue
+            body_nodes.append(n)
+            stack.extend(ast.iter_child_nodes(n))
+        # aliases: a local bound to (part of) a parameter refers to the same object (fixpoint, flow-insensitive)
+        changed = True
+        while changed:
+            changed = False
+            for n in body_nodes:
+                if isinstance(n, ast.Assign) and len(n.targets) == 1 and isinstance(n.targets[0], ast.Name):
+                    v = n.value
+                    if isinstance(v, (ast.Name, ast.Attribute, ast.Subscript)) and not (isinstance(v, ast.Subscript) and isinstance(v.slice, ast.Slice)):
+                        r, _ = root_of(v)
+                        if r in tainted and n.targets[0].id not in tainted:
+                            tainted.add(n.targets[0].id)
+                            changed = True
+                if isinstance(n, (ast.For,)) and isinstance(n.target, ast.Name):
+                    r, _ = root_of(n.iter)
+                    if r in tainted and n.target.id not in tainted:
+                        tainted.add(n.target.id)
+                        changed = True
+        bad = []
+        for n in body_nodes:
+            tgts = []
+            if isinstance(n, ast.Assign):
+                tgts = n.targets
+            elif isinstance(n, (ast.AugAssign, ast.AnnAssign)):
+                tgts = [n.target]
+            elif isinstance(n, ast.Delete):
+                tgts = n.targets
+            for t in tgts:
+                for e in (t.elts if isinstance(t, (ast.Tuple, ast.List)) else [t]):
+                    r, steps = root_of(e)
+                    if r in tainted and steps > 0:
+                        bad.append((n.lineno, 'store to %s' % ast.unparse(e)))
+            if isinstance(n, ast.Call):
+                f = n.func
+                if isinstance(f, ast.Attribute):
+                    r, _ = root_of(f.value)
+                    if f.attr in MUTATORS and r in tainted:
+                        bad.append((n.lineno, 'in-place update %s' % ast.unparse(f)))
+                    elif r in params and isinstance(f.value, ast.Name) and f.attr not in names and not f.attr.startswith('__') \
+                            and f.attr not in ('format', 'upper', 'lower', 'join', 'get', 'keys', 'values', 'items', 'getint', 'getfloat',
+                                               'getboolean', 'has_option', 'is_alive', 'isdigit', 'isalpha', 'strip', 'rstrip', 'split'):
+                        bad.append((n.lineno, 'call to %s, which is not covered by this frame obligation' % ast.unparse(f)))
+                    if ast.unparse(f) in ('heapq.heappush', 'heapq.heappop', 'heapq.heapify', 'random.shuffle') and n.args:
+                        r2, _ = root_of(n.args[0])
+                        if r2 in tainted:
+                            bad.append((n.lineno, '%s on %s' % (ast.unparse(f), ast.unparse(n.args[0]))))
+        records.append({'name': name, 'ok': not bad, 'detail': '; '.join('line %d: %s' % b for b in sorted(set(bad))), 'fn': key, 'site': key,
+                        'witness': None if not bad else {'file': rel, 'function': qn, 'statements': sorted(set(bad))}})
+    return records
